@@ -14,6 +14,7 @@ R20.3  validated-return functions (enum member names): the return is dominated b
 R20.2  de-duplication soundness per namespace: membership test in an accumulating set, rename in a loop until unused,
        the final name recorded; sites: dataclass fields, enum members, class names, module stems, operation methods,
        operation parameters
+R20.12 the tag attribute names of APIClient are kept apart from the names the class uses itself (every fixed member name is refused by the sanitiser) [= R7.14]
 R20.11 two inline schemas with the same made-up name are kept apart (name tied to the document node)                                   [= R2.21]
 """
 from __future__ import annotations
@@ -88,7 +89,7 @@ def run(repo: Repo, rep: Report, tier: str) -> None:
     rule_stored_names_are_fixed_points(repo, rep, "R20.5")
     # R20.6: tags are the one namespace without a de-duplication step - two tag groups never derive the same module / class / attribute
     # name because the grouping key is at least as coarse as those names                                                   [= R7.7]
-    _reuse20(repo, rep, "c07", {"R7.7": "R20.6"})
+    _reuse20(repo, rep, "c07", {"R7.7": "R20.6", "R7.14": "R20.12"})  # R20.12: a tag attribute never takes the name of a member of APIClient
     # R20.7: a reference is resolved by the exact name it carries: when two schemas differ only by what sanitising removes, a lookup
     # under the sanitised name returns the other schema                                                                     [= R2.10]
     from rules.c02 import rule_exact_registry_lookups
@@ -369,8 +370,37 @@ def _dedup_site_1(fn: Function, label: str, seen_hint: str, rep) -> None:
                 if isinstance(n, ast.Assign) and any(isinstance(tg, ast.Name) and tg.id in an for tg in n.targets) and tested in {
                         x.id for x in ast.walk(n.value) if isinstance(x, ast.Name)}:
                     same = True
+    # (iv) the name that was probed is the name that is recorded: nothing rewrites it between the end of the probe and the record (a suffix added
+    # afterwards - `name += "_"` for an import-shadowing field - is recorded without ever having been tested: two properties can share it)
+    touched = None
+    if wn and rec_nodes and tested is not None:
+        rec_names = {tested} | {x.id for a in rec_args for x in ast.walk(a) if isinstance(x, ast.Name)}
+        inside_w2 = {id(x) for x in ast.walk(w)}
+        if exit_kind == "test":
+            exits2 = [m for m, lab in cfg.succ[wn[0]] if lab == "false"]
+        else:
+            exits2 = list(exits) if "exits" in dir() else []
+        between: Set[int] = set()
+        for m in exits2:
+            between |= cfg.reachable_from_without(m, rec_nodes | hdr)
+        for n in cfg.nodes:
+            if n.id in between and n.kind == "stmt" and n.ast is not None and id(n.ast) not in inside_w2 and n.id not in rec_nodes:
+                if isinstance(n.ast, (ast.Assign, ast.AugAssign, ast.AnnAssign)):
+                    tg = n.ast.targets if isinstance(n.ast, ast.Assign) else [n.ast.target]
+                    if any(isinstance(t_, ast.Name) and t_.id in rec_names for t_ in tg) and (rec_nodes & cfg.reachable(n.id)):
+                        # harmless: an assignment that only copies the probed name into the recorded one (`final = candidate`)
+                        v_ = getattr(n.ast, "value", None)
+                        if isinstance(n.ast, ast.Assign) and ((isinstance(v_, ast.Name) and v_.id in rec_names) or (v_ is not None and norm(v_) == norm(left))):
+                            continue  # the recorded name *is* the probed expression (`name = sanitize(candidate)` after `while sanitize(candidate) in seen`)
+                        if not isinstance(n.ast, ast.AugAssign) and not (v_ is not None and any(isinstance(y, ast.Name) and y.id in rec_names for y in ast.walk(v_))):
+                            continue  # unrelated re-binding
+                        touched = n
     sub = f"{sub0} (`while <name> in <used names>`)"
-    if reassigned and recorded and same:
+    if reassigned and recorded and same and touched is not None:
+        rep.violation("R20.2", sub, f"{fn.fq}|dedup|{label}|renamed-after-the-probe",
+                      f"`{norm(touched.ast)[:60]}` changes the name after it was probed against `{norm(coll)}` and before it is recorded: the recorded name was never tested, two spec names "
+                      "can end up with the same identifier (one overwrites the other)", fn.loc(touched.ast))
+    elif reassigned and recorded and same:
         rep.ok("R20.2", sub, f"tests membership in `{norm(coll)}`, renames `{tested}` until unused, records the final name on every path", fn.loc(w))
     else:
         rep.violation("R20.2", sub, f"{fn.fq}|dedup|{label}|reassigned={reassigned}|recorded={recorded}|same={same}",
